@@ -172,7 +172,7 @@ def run_engine(ctx: Ctx) -> dict:
     ctx.log(f"cascade engine: {sum(t['n'] for t in res['traces'])} executions recorded and validated in {time.time()-t1:.0f}s")
     res["wall"] = round(time.time() - t0, 1)
     cache.mkdir(exist_ok=True)
-    for old in cache.glob("cascade_*.json"):
+    for old in sorted(cache.glob("cascade_*.json"), key=lambda f: f.stat().st_mtime)[:-6]:
         old.unlink()
     cf.write_text(json.dumps(res))
     return res
